@@ -32,6 +32,19 @@ fn main() {
             }
         }
         "c19serve" => kv::props::c19::serve(),
+        "fuzzseeds" => {
+            // kv fuzzseeds <dir>: writes small corpus programs as seed files for the coverage-guided targets
+            let dir = std::path::PathBuf::from(&args[2]);
+            let _ = std::fs::create_dir_all(&dir);
+            let mut n = 0;
+            for (i, item) in kv::corpus::load().iter().enumerate() {
+                if item.text.len() < 600 && i % 3 == 0 {
+                    let _ = std::fs::write(dir.join(format!("seed{i}")), &item.text);
+                    n += 1;
+                }
+            }
+            println!("{n} seeds written to {}", dir.display());
+        }
         "c07battery" => kv::props::c07::print_battery(),
         "runfile" => {
             let src = std::fs::read_to_string(&args[2]).unwrap();
